@@ -17,6 +17,7 @@ RULES = {
     "R4": "scatter_points: check_region first; RNG from check_random_state(random_state); uniform(W, E, size) then uniform(S, N, size); constant extras",
     "R5": "project_region: grid of the region -> projection(E.ravel(), N.ravel()) -> (E.min, E.max, N.min, N.max)",
     "R6": "maxabs == max_i max(|min a_i|, |max a_i|), nan-aware exactly when nan is true",
+    "R8": "grid nodes stay inside the region: for adjust='spacing' spacing_to_size returns the caller's stop itself (bit-exact), so linspace ends on the bound (shared with C07.R1)",
     "R7": "check_region raises on length != 4, W > E, S > N (strict); generators/testers reach it before using the region",
 }
 ASSUMPTIONS = ["that generated nodes lie inside the region is the semantics of uniform/linspace (declined)"]
@@ -385,3 +386,5 @@ def check(ctx):
     r5_project_region(ctx)
     r6_maxabs(ctx)
     r7_check_region(ctx)
+    from . import c07
+    c07.exact_stop(ctx, "R8")
